@@ -13,8 +13,11 @@ def _lib():
     return OBDD, BDDNode
 
 
-def build(tt, variables, order):
-    OBDD, _ = _lib()
+def build(tt, variables, order, how='parse'):
+    OBDD, BDDNode = _lib()
+    if how == 'nodes':
+        # bottom-up through the BDDNode constructor with variable names computed at run time
+        return OBDD(bdd.shannon_build(BDDNode, tt, tuple(variables), order), list(order))
     return OBDD(bdd.to_str(bdd.minterm_expr(tt, variables)), list(order))
 
 
@@ -51,8 +54,11 @@ def check_ops(inp):
     order = list(inp['order'])
     full = bdd.tt_full(nv)
     try:
-        of = build(inp['f'], variables, order)
-        og = build(inp['g'], variables, list(order))     # an equal list in another object
+        of = build(inp['f'], variables, order, inp.get('build_f', 'parse'))
+        og = build(inp['g'], variables, list(order), inp.get('build_g', 'parse'))     # an equal list in another object
+        if inp.get('build_f') == 'nodes' or inp.get('build_g') == 'nodes':
+            # the same functions also exist as parsed diagrams while the operations run
+            keep = (build(inp['f'], variables, order), build(inp['g'], variables, order))
         for who, o, tt in (('f', of, inp['f']), ('g', og, inp['g'])):
             p = inspect(o, tt, variables, order, 'parsing ' + who)
             if p:
@@ -225,8 +231,8 @@ def enum_shard(st, shard, nshards, payload):
                 if g == (f * 7 + 3) % nfun:
                     # unary operations and error cases once per f
                     inp = {'nv': nv, 'order': order, 'f': f, 'g': g}
-                    st.evaluations += 1
-                    fr = check_ops(inp)
+                    st.evaluations += 2
+                    fr = check_ops(inp) or check_ops(dict(inp, build_f='nodes', build_g='parse' if f % 2 else 'nodes'))
                     if fr is None:
                         o2 = order[1:] + order[:1] if nv > 1 else order
                         st.evaluations += 1
@@ -243,7 +249,8 @@ def enum_shard(st, shard, nshards, payload):
 def run(ctx):
     from hypothesis import strategies as hs
     ctx.rule = ('functions are truth tables; each is parsed from its minterm expression under an '
-                'ordering; all ordered pairs (f,g) x {&,|,^}, ~f, ~~f and f.restrict(v,b) for every '
+                'ordering (a share of the operands is instead built bottom-up through BDDNode with variable names '
+                'computed at run time); all ordered pairs (f,g) x {&,|,^}, ~f, ~~f and f.restrict(v,b) for every '
                 'variable (in or out of the support) and b in {0,1,False,True}.  Oracle: diagram '
                 'walked on every assignment = pointwise operation on the tables; every reachable '
                 'node tests a variable strictly before its children\'s and has distinct children; '
@@ -278,7 +285,9 @@ def random_shard(st, shard, nshards, payload):
         vs = list(VARS5[:nv])
         top = (1 << (1 << nv)) - 1
         return {'nv': nv, 'order': list(draw(hs.permutations(vs))), 'order2': list(draw(hs.permutations(vs))),
-                'f': draw(hs.integers(0, top)), 'g': draw(hs.integers(0, top)), 'dense': draw(hs.booleans())}
+                'f': draw(hs.integers(0, top)), 'g': draw(hs.integers(0, top)), 'dense': draw(hs.booleans()),
+                'build_f': draw(hs.sampled_from(['parse', 'parse', 'nodes'])),
+                'build_g': draw(hs.sampled_from(['parse', 'nodes']))}
     case = case_s()
 
     def body(inp):
